@@ -41,9 +41,13 @@ def generate(g, tier):
                 plan["weights"] = [1]
         if g.coin(0.15):
             plan["soft_fail"] = {str(g.randint(0, 10)): 1}
+        if g.coin(0.2):
+            plan["http_errors"] = sorted(g.sample(range(12), g.pick([1, 2, 4])))
         if g.coin(0.12):
             t["clients"] = 1
             plan["throughput"] = [g.pick([12.5, 300.0]), 7.25, 0.0]
+            # (a failed request carries no runner-provided value; what a task that mixes both kinds reports is not specified)
+            plan.pop("http_errors", None)
         t["sim"] = plan
         tasks.append(t)
     total = sum(t["clients"] for t in tasks)
@@ -116,7 +120,17 @@ class PipelineHarness(Harness):
         clock = VClock(noise_stream=ch.stream("clock-noise"), jitter=cfg.get("jitter", 0))
         svc_stream = ch.stream("service-time")
         svc = cfg["service"]
-        simes = SimES(clock, lambda w: Outcome(delay=svc_stream.uniform(svc["lo"], svc["hi"])))
+        http_errors = {t["name"]: set(t["sim"].get("http_errors") or []) for t in cfg["tasks"]}
+
+        def policy(w):
+            d = svc_stream.uniform(svc["lo"], svc["hi"])
+            parts = w.path.strip("/").split("/")
+            if parts[0] == "_sim" and len(parts) >= 4 and int(parts[3]) in http_errors.get(parts[1], ()):
+                # a failed request is a sample with 0 operations in unit "ops", whatever the unit of the task is
+                return Outcome(delay=d, kind="status", status=500)
+            return Outcome(delay=d)
+
+        simes = SimES(clock, policy)
         violations = []
 
         def bad(oracle, key, msg):
@@ -295,6 +309,10 @@ class PipelineHarness(Harness):
                                 bad("value", "negative", f"{ctx}: throughput {value}")
                             if unit not in {f"{u}/s" for u in unit_of}:
                                 bad("value", "unit", f"{ctx}: unit {unit}, samples are in {sorted(unit_of)}")
+                            # a value is reported with a sample (same point in time): it carries that sample's unit
+                            at = {h[3].total_ops_unit for h in hist if h[3].absolute_time == T}
+                            if at and unit not in {f"{u}/s" for u in at}:
+                                bad("value", "unit-of-its-sample", f"{ctx}: unit {unit}, but the sample it is reported with is in {sorted(at)} (the task's samples are in {sorted(unit_of)})")
                             if st["last_type"] == metrics.SampleType.Normal and stype == metrics.SampleType.Warmup:
                                 bad("value", "type-regression", f"{ctx}: sample type went back from normal to warm-up")
                             if st["last_type"] == metrics.SampleType.Warmup and stype == metrics.SampleType.Normal:
